@@ -1060,10 +1060,48 @@ fn run_native_keys(ops: &[Op]) {
 // ops[0] = (kind, grow - 1, _): kind % 3 = 0 sorted_by_key, 1 min_by_key, 2 max_by_key.
 fn callback_mutation_scenario(ops: &[Op]) {
     let fname = ["sorted_by_key", "min_by_key", "max_by_key"][(ops[0].0 % 3) as usize];
+    let add = |a: Card, b: Card| -> Card { CardBody::Add(cao_lang::compiler::BinaryExpression::new([a, b])).into() };
+    if (ops[0].0 / 3) % 2 == 1 {
+        // the key function REMOVES the last row (a string nothing else refers to) on its first call and then allocates
+        // garbage on a small heap: the native must keep the row it copied alive; all rows must come back
+        let rows = ["row-a", "row-b", "row-c", "row-d"];
+        let junk = 40 + (ops[0].1 % 8) as i64 * 20;
+        let mut cards = vec![Card::set_global_var("t", CardBody::CreateTable)];
+        for r in rows { cards.push(CardBody::AppendTable(cao_lang::compiler::BinaryExpression::new([Card::string_card(r), Card::read_var("t")])).into()); }
+        cards.push(Card::set_global_var("g_result", Card::call_function(fname, vec![CardBody::Function("keyfn".to_string()).into(), Card::read_var("t")])));
+        let module = Module {
+            imports: vec![format!("std.{fname}")],
+            functions: vec![
+                ("main".to_string(), Function::default().with_cards(cards)),
+                ("keyfn".to_string(), Function::default().with_arg("key").with_arg("val").with_cards(vec![
+                    CardBody::IfTrue(Box::new([
+                        CardBody::Equals(cao_lang::compiler::BinaryExpression::new([Card::read_var("key"), Card::scalar_int(0)])).into(),
+                        Card::set_var("popped", CardBody::PopTable(cao_lang::compiler::UnaryExpression::new(Card::read_var("t")))),
+                    ])).into(),
+                    Card::set_var("popped", CardBody::ScalarNil),
+                    Card::repeat(Card::scalar_int(junk), None, Card::set_var("junk", Card::string_card("junk!"))),
+                    // max_by_key selects the removed row (largest key), min_by_key the first one
+                    Card::return_card(Card::read_var("key")),
+                ])),
+            ],
+            ..Default::default()
+        };
+        let program = compile(module, None).unwrap();
+        let mut vm = Vm::new(()).unwrap().with_max_iter(2_000_000);
+        vm.runtime_data.set_memory_limit(8 << 10);
+        let r = vm.run(&program);
+        let mut seen: Vec<String> = vec![];
+        if let Some(g) = vm.read_var_by_name("g_result", &program.variables) {
+            if let Some(t) = unsafe { g.as_table() } { seen = t.iter().map(|(_, v)| unsafe { v.as_str() }.map(|s| s.to_string()).unwrap_or_else(|| format!("{v:?}"))).collect(); }
+        }
+        println!("CHILD finished: {:?}, result values {seen:?}", r.as_ref().map(|_| ()).map_err(|e| &e.payload));
+        let want: Vec<String> = match ops[0].0 % 3 { 0 => rows.iter().map(|s| s.to_string()).collect(), 1 => vec!["Integer(0)".to_string(), "row-a".to_string()], _ => vec!["Integer(3)".to_string(), "row-d".to_string()] };
+        if r.is_ok() && seen != want { println!("CHILD wrong result: expected {want:?}"); std::process::exit(3); }
+        return;
+    }
     let grow = 1 + (ops[0].1 % 1024) as i64;
     let n = 6i64;
     let arr: Vec<Card> = (0..n).map(|i| CardBody::ScalarInt(n - i).into()).collect();
-    let add = |a: Card, b: Card| -> Card { CardBody::Add(cao_lang::compiler::BinaryExpression::new([a, b])).into() };
     let module = Module {
         imports: vec![format!("std.{fname}")],
         functions: vec![
@@ -1088,25 +1126,150 @@ fn callback_mutation_scenario(ops: &[Op]) {
     println!("CHILD finished: {:?}", r.map(|_| ()).map_err(|e| e.payload));
 }
 
-fn run_callback_mutation(ops: &[Op]) {
-    if std::env::var("CAO_REPLAY_CHILD").is_ok() { callback_mutation_scenario(ops); return; }
+/// runs `<this executable> <unit> replay 0 <ops[0]>` as a child process with CAO_REPLAY_CHILD set -- under valgrind's
+/// memcheck when it is installed (exit code 97 = memcheck reported an error): a read of freed memory does not always
+/// kill an optimised build.  Some(description) if the child did not end normally.
+fn run_child(unit: &str, ops: &[Op]) -> Option<String> {
     let exe = std::env::current_exe().unwrap();
     let txt: Vec<String> = ops[..1].iter().map(|o| format!("{}:{}:{}", o.0, o.1, o.2)).collect();
-    // a read of freed memory does not always kill an optimised build: run the child under valgrind's memcheck when it is
-    // installed (exit code 97 = memcheck reported an error), directly otherwise
     let have_valgrind = std::process::Command::new("valgrind").arg("--version").output().map(|o| o.status.success()).unwrap_or(false);
     let mut cmd = if have_valgrind {
         let mut c = std::process::Command::new("valgrind");
         c.args(["-q", "--error-exitcode=97"]).arg(&exe);
         c
     } else { std::process::Command::new(&exe) };
-    let out = cmd.args(["callback_mutation", "replay", "0", &txt.join(",")]).env("CAO_REPLAY_CHILD", "1").output().unwrap();
-    if !out.status.success() {
+    let out = cmd.args([unit, "replay", "0", &txt.join(",")]).env("CAO_REPLAY_CHILD", "1").output().unwrap();
+    if out.status.success() { return None; }
+    let err = String::from_utf8_lossy(&out.stderr);
+    let lines: Vec<&str> = err.lines().filter(|l| l.contains("Invalid read") || l.contains("Invalid write") || l.contains("free'd") || l.contains("cao_lang::")).take(3).map(|l| l.trim()).collect();
+    Some(format!("the process {} instead of returning a result or an error {}",
+        if out.status.code() == Some(97) { "read or wrote freed memory (valgrind memcheck)".to_string() } else if out.status.code() == Some(3) { format!("returned a wrong result ({})", String::from_utf8_lossy(&out.stdout).lines().filter(|l| l.starts_with("CHILD")).collect::<Vec<_>>().join("; ")) } else { format!("terminated abnormally ({})", out.status) }, lines.join(" | ")))
+}
+
+fn run_callback_mutation(ops: &[Op]) {
+    if std::env::var("CAO_REPLAY_CHILD").is_ok() { callback_mutation_scenario(ops); return; }
+    if let Some(what) = run_child("callback_mutation", ops) {
         let fname = ["sorted_by_key", "min_by_key", "max_by_key"][(ops[0].0 % 3) as usize];
-        let err = String::from_utf8_lossy(&out.stderr);
-        let lines: Vec<&str> = err.lines().filter(|l| l.contains("Invalid read") || l.contains("Invalid write") || l.contains("free'd") || l.contains("native_")).take(3).map(|l| l.trim()).collect();
-        fail("callback_mutation", ops, 0, format!("std.{fname} over a 6-entry global table whose key function appends {} entries to that table per call: the process {} instead of returning a result or an error {}", 1 + ops[0].1 % 1024,
-            if out.status.code() == Some(97) { "read or wrote freed memory (valgrind memcheck)".to_string() } else { format!("terminated abnormally ({})", out.status) }, lines.join(" | ")));
+        if (ops[0].0 / 3) % 2 == 1 {
+            fail("callback_mutation", ops, 0, format!("std.{fname} over the global table [row-a, row-b, row-c, row-d] whose key function pops the last row on its first call and allocates garbage on an 8 KiB heap: {what} (the rows the native copied must survive)"));
+        }
+        fail("callback_mutation", ops, 0, format!("std.{fname} over a 6-entry global table whose key function appends {} entries to that table per call: {what}", 1 + ops[0].1 % 1024));
+    }
+}
+
+// ---------------------------------------------------------------- operand_rooting (C02: operands of the table instructions)
+// SetProperty / AppendTable / NthRow take their operands from the value stack and then grow or create a table, which may
+// run the collector.  An operand nothing else refers to -- the string literal being stored, a temporary table -- must
+// survive that.  ops[0] = (kind, n, _): kind % 3 = 0 `repeat n { t.append("...") }`, 1 `repeat n { t[i] = "..." }`,
+// 2 `repeat n { g = nth_row([.. a new table ..], 1) }` on a small heap.  Afterwards every stored value is read back.
+// The unrepaired code stores pointers to freed strings: the scenario runs in a child process under valgrind.
+fn operand_rooting_scenario(ops: &[Op]) {
+    let kind = ops[0].0 % 3;
+    let n = 1000 + (ops[0].1 % 8) as i64 * 500;
+    let text = "a string value that is long enough to matter";
+    let body: Card = match kind {
+        0 => CardBody::AppendTable(cao_lang::compiler::BinaryExpression::new([Card::string_card(text), Card::read_var("t")])).into(),
+        1 => Card::set_property(Card::string_card(text), Card::read_var("t"), Card::read_var("i")),
+        _ => Card::set_global_var("g", CardBody::Get(cao_lang::compiler::BinaryExpression::new([
+                 Card::from(CardBody::Array(vec![Card::string_card(text), Card::string_card(text), Card::string_card(text)])), Card::scalar_int(1)]))),
+    };
+    let module = Module {
+        functions: vec![("main".to_string(), Function::default().with_cards(vec![
+            Card::set_global_var("t", CardBody::CreateTable),
+            Card::repeat(Card::scalar_int(n), Some("i".to_string()), body),
+        ]))],
+        ..Default::default()
+    };
+    let program = compile(module, None).unwrap();
+    let mut vm = Vm::new(()).unwrap().with_max_iter(100_000_000);
+    vm.runtime_data.set_memory_limit(if kind == 2 { 64 << 10 } else { 1 << 20 });
+    let r = vm.run(&program);
+    let mut good = 0usize;
+    if let Some(t) = vm.read_var_by_name("t", &program.variables) {
+        if let Some(t) = unsafe { t.as_table() } { good = t.iter().filter(|(_, v)| unsafe { v.as_str() } == Some(text)).count(); }
+    }
+    if kind == 2 {
+        if let Some(g) = vm.read_var_by_name("g", &program.variables) {
+            if let Some(row) = unsafe { g.as_table() } { good += row.iter().filter(|(_, v)| unsafe { v.as_str() } == Some(text)).count(); }
+        }
+    }
+    println!("CHILD finished: {:?}, {good} values read back", r.map(|_| ()).map_err(|e| e.payload));
+}
+
+fn run_operand_rooting(ops: &[Op]) {
+    if std::env::var("CAO_REPLAY_CHILD").is_ok() { operand_rooting_scenario(ops); return; }
+    if let Some(what) = run_child("operand_rooting", ops) {
+        let n = 1000 + (ops[0].1 % 8) * 500;
+        let prog = [format!("t = {{}}; repeat {n} {{ append(t, \"<string literal>\") }}"), format!("t = {{}}; repeat {n} i {{ t[i] = \"<string literal>\" }}"),
+                    format!("repeat {n} {{ g = nth_row([\"..\", \"..\", \"..\"], 1) }} on a 64 KiB heap")][(ops[0].0 % 3) as usize].clone();
+        fail("operand_rooting", ops, 0, format!("main {{ {prog} }}: {what}"));
+    }
+}
+
+// ---------------------------------------------------------------- stdlib_model (C09: what the native-backed library functions return)
+// A table {100+i: v_i} with small values (many ties), and std.min_by_key / max_by_key / sorted_by_key with one of four key
+// functions of (key, val) -- val, -val, -key, val * 1000 - key -- or std.to_array; compared with the specification: first
+// extreme row, stable ascending order, values re-keyed 0..n-1.  ops[i].2 are the values; variant % 4 picks the function,
+// (variant / 4) % 4 the key function.
+fn run_stdlib_model(ops: &[Op], variant: u64) {
+    let which = variant % 4;
+    let kf = (variant / 4) % 4;
+    let fname = ["min_by_key", "max_by_key", "sorted_by_key", "to_array"][which as usize];
+    let vals: Vec<i64> = ops.iter().map(|o| o.2.rem_euclid(7)).collect();
+    let n = vals.len();
+    let mut cards: Vec<Card> = vec![Card::set_var("t", CardBody::CreateTable)];
+    for (i, v) in vals.iter().enumerate() {
+        cards.push(Card::set_property(Card::scalar_int(*v), Card::read_var("t"), Card::scalar_int(100 + i as i64)));
+    }
+    let call = if which == 3 { Card::call_function(fname, vec![Card::read_var("t")]) }
+               else { Card::call_function(fname, vec![CardBody::Function("keyfn".to_string()).into(), Card::read_var("t")]) };
+    cards.push(Card::set_global_var("g_result", call));
+    let bin = |a: Card, b: Card| cao_lang::compiler::BinaryExpression::new([a, b]);
+    let keyexpr: Card = match kf {
+        0 => Card::read_var("val"),
+        1 => CardBody::Sub(bin(Card::scalar_int(0), Card::read_var("val"))).into(),
+        2 => CardBody::Sub(bin(Card::scalar_int(0), Card::read_var("key"))).into(),
+        _ => CardBody::Sub(bin(CardBody::Mul(bin(Card::read_var("val"), Card::scalar_int(1000))).into(), Card::read_var("key"))).into(),
+    };
+    let kfname = ["val", "-val", "-key", "val * 1000 - key"][kf as usize];
+    let module = Module {
+        imports: vec![format!("std.{fname}")],
+        functions: vec![
+            ("main".to_string(), Function::default().with_cards(cards)),
+            ("keyfn".to_string(), Function::default().with_arg("key").with_arg("val").with_card(Card::return_card(keyexpr))),
+        ],
+        ..Default::default()
+    };
+    let program = match compile(module, None) { Ok(p) => p, Err(_) => return };
+    let mut vm = Vm::new(()).unwrap().with_max_iter(1_000_000);
+    if vm.run(&program).is_err() { return; }
+    let Some(r) = vm.read_var_by_name("g_result", &program.variables) else { return };
+    let keyof = |i: usize| -> i64 { let (k, v) = (100 + i as i64, vals[i]); match kf { 0 => v, 1 => -v, 2 => -k, _ => v * 1000 - k } };
+    let last = ops.len() - 1;
+    let rows: Vec<(Value, Value)> = match unsafe { r.as_table() } { Some(t) => t.iter().map(|(k, v)| (*k, *v)).collect(), None => vec![] };
+    let ints = |v: &Value| v.as_int().unwrap_or(i64::MIN);
+    match which {
+        0 | 1 => {
+            // first row whose key no other row's key is smaller (larger) than
+            let mut best = 0usize;
+            for i in 1..n { if if which == 0 { keyof(i) < keyof(best) } else { keyof(i) > keyof(best) } { best = i; } }
+            let got: Vec<i64> = rows.iter().map(|(_, v)| ints(v)).collect();
+            if got != vec![100 + best as i64, vals[best]] {
+                fail("stdlib_model", ops, last, format!("std.{fname} over the values {vals:?} (keys 100..) with key function {kfname}: {{key, value}} = {got:?}, expected [{}, {}] (the first extreme row)", 100 + best, vals[best]));
+            }
+        }
+        2 => {
+            let mut want: Vec<usize> = (0..n).collect();
+            want.sort_by_key(|i| keyof(*i)); // std's sort_by_key is stable
+            let want: Vec<(i64, i64)> = want.iter().map(|i| (100 + *i as i64, vals[*i])).collect();
+            let got: Vec<(i64, i64)> = rows.iter().map(|(k, v)| (ints(k), ints(v))).collect();
+            if got != want { fail("stdlib_model", ops, last, format!("std.sorted_by_key over the values {vals:?} (keys 100..) with key function {kfname}: {got:?}, expected the stable ascending order {want:?}")); }
+        }
+        _ => {
+            let want: Vec<(i64, i64)> = vals.iter().enumerate().map(|(i, v)| (i as i64, *v)).collect();
+            let got: Vec<(i64, i64)> = rows.iter().map(|(k, v)| (ints(k), ints(v))).collect();
+            if got != want { fail("stdlib_model", ops, last, format!("std.to_array over the values {vals:?} (keys 100..): {got:?}, expected {want:?}")); }
+        }
     }
 }
 
@@ -1126,7 +1289,9 @@ fn dispatch(unit: &str, ops: &[Op], variant: u64) {
         "closure_capture" => run_closure_capture(ops),
         "gc_roots" => run_gc_roots(ops),
         "cyclic_table" => run_cyclic_table(ops),
+        "stdlib_model" => run_stdlib_model(ops, variant),
         "callback_mutation" => run_callback_mutation(ops),
+        "operand_rooting" => run_operand_rooting(ops),
         "native_keys" => run_native_keys(ops),
         "serde_roundtrip" => run_serde_roundtrip(ops, variant),
         _ => { eprintln!("unknown unit {unit}"); std::process::exit(2); }
@@ -1156,9 +1321,16 @@ fn main() {
         println!("OK comparing, hashing and converting tables that contain themselves (cycle length 1..3) returned normally");
         return;
     }
+    if unit == "operand_rooting" {
+        // each shape spawns a child process
+        for kind in 0..3u8 { for n in [2u64, 4] { dispatch(unit, &[(kind, n, 0)], 0); } }
+        println!("OK table instructions kept their operands alive while tables grew");
+        return;
+    }
     if unit == "callback_mutation" {
         // a few shapes: each spawns a child process
         for kind in 0..3u8 { for grow in [0u64, 2, 9, 39] { dispatch(unit, &[(kind, grow, 0)], 0); } }
+        for kind in 3..6u8 { for junk in [1u64, 5] { dispatch(unit, &[(kind, junk, 0)], 0); } }
         println!("OK key functions that append to the table being processed returned normally");
         return;
     }
